@@ -10,16 +10,36 @@ prop("C07", True, "A+C",
      "Bounded exhaustive search over filter histories (depth 5 quick / 7 thorough, 36+9 configurations) with a per-step reference, so no drift accumulates in the oracle; the cost functions are unary f32 functions and are checked on every non-negative bit pattern in the thorough tier.",
      "Trusted: the f64 reference recurrence in engine/src/props/c07.rs and the H4 accessor. Measurements follow a filter-independent object trajectory with heights within [h0/4, 4*h0]; states whose predicted height collapses to ~0 (noise model degenerates) are outside the explored space.",
      "7/C07")
-prop("C08", False, "C", "", "", NB, "7/C08")
+prop("C08", True, "C",
+     'exhaustive enumeration of complete box-pair grids (centre lattice x sizes x angle menu for both boxes, degenerate families, far-from-origin copies) on the real intersection / IoU / too_far code against an independent f64 convex clipper',
+     'Every pair of the stated finite product (2.3M quick, 87M thorough incl. deep invariance checks) is executed; area, range, symmetry, identity, absent-iff-disjoint, rigid-motion invariance and closed-form agreement are asserted with decisions only outside a 1e-6 margin. Right level: a universally quantified statement about a pure function of two boxes.',
+     "Trusted: engine/src/geom.rs reference clipper (computed relative to the first box's centre). Boxes off the lattice / menu are not covered.",
+     "7/C08")
 prop("C09", False, "A+B", "", "", NB, "7/C09")
 prop("C10", False, "B", "", "", NB, "7/C10")
 prop("C11", False, "A", "", "", NB, "7/C11")
 prop("C12", False, "A", "", "", NB, "7/C12")
 prop("C13", False, "A", "", "", NB, "7/C13")
-prop("C14", False, "C", "", "", NB, "7/C14")
-prop("C15", False, "C", "", "", NB, "7/C15")
-prop("C16", False, "C", "", "", NB, "7/C16")
-prop("C17", False, "C", "", "", NB, "7/C17")
+prop("C14", True, "C",
+     'exhaustive enumeration of all box lists up to n=4 (5 thorough) over a 9-box menu x score patterns x thresholds, plus chain/ladder/grid/fan families for every k<=40, on the real nms(); oracle straight from the statement with own coverage computation',
+     'All lists of the finite product are executed and each clause of the statement (subset by reference identity, rank order, top kept, independence, justification of every drop, idempotence) is checked.',
+     'Trusted: own coverage computation; keep/drop decisions asserted outside a 1e-4 margin around the threshold. Lists longer than 5 only along the enumerated families.',
+     "7/C14")
+prop("C15", True, "C",
+     'exhaustive enumeration of all sets of <=3 integer boxes on a 5-point lattice and of 4 on a 4-point lattice (every ordering of sampled 3-sets by a fixed stride) against exact cell counting, plus enumerated degenerate/rotated families of 1..8 boxes against inclusion-exclusion',
+     'Complete finite products executed on the real code under catch_unwind; exact integer reference where possible.',
+     "Trusted: cell counting and the inclusion-exclusion reference. rayon's internal scheduling is not controlled (outputs are compared across input orders instead).",
+     "7/C15")
+prop("C16", True, "C",
+     'exhaustive enumeration of every vector length 0..=130 x value menus, every same-length menu pair, every ordered pair of lengths, all triples of a 24-vector menu per length class, on the real packing and SIMD distance code against scalar f64 formulas',
+     'All lengths (every residue modulo the lane width) are covered exhaustively; values come from fixed menus, not random draws.',
+     'Trusted: scalar f64 formulas. Values off the menus are not covered.',
+     "7/C16")
+prop("C17", True, "C",
+     'exhaustive enumeration of all stream multisets up to a size over small query/track/distance alphabets and of every permutation of streams of <=4 items, all parameter triples, on the real voting engines against independently computed counting rules',
+     'Every stream of the bounded space and every arrival order (all permutations up to 4 items; rotations, reversal, adjacent swaps for 5-6) is executed; ties are accepted either way, tie-free results must be identical across orders.',
+     'Trusted: the counting-rule reference in engine/src/props/c17.rs; dyadic distances make the f64 sums exact.',
+     "7/C17")
 prop("C18", False, "D", "", "", NB, "7/C18")
 prop("C20", False, "A+C", "", "", NB, "7/C20")
 prop("C19", True, "C",
